@@ -47,6 +47,16 @@ def resp? : Sexp → Option Resp
 def world? : Sexp → Option World
   | .list [.atom "world", .list (.atom "resp" :: rs), .list (.atom "content" :: cs),
            .list (.atom "wasm" :: ws), .list (.atom "node" :: ns), mr, .list (.atom "lock" :: ls),
+           .list (.atom "hashes" :: hs), hl, .list (.atom "remote" :: rem), .list (.atom "reload" :: rl)] => do
+    let base ← world? (.list [.atom "world", .list (.atom "resp" :: rs), .list (.atom "content" :: cs),
+           .list (.atom "wasm" :: ws), .list (.atom "node" :: ns), mr, .list (.atom "lock" :: ls),
+           .list (.atom "hashes" :: hs), hl, .list (.atom "remote" :: rem)])
+    let rr ← rl.mapM fun
+      | .list [k, r] => do pure ((← nat? k), (← resp? r))
+      | _ => none
+    pure { base with reloadResp := rr }
+  | .list [.atom "world", .list (.atom "resp" :: rs), .list (.atom "content" :: cs),
+           .list (.atom "wasm" :: ws), .list (.atom "node" :: ns), mr, .list (.atom "lock" :: ls),
            .list (.atom "hashes" :: hs), hl, .list (.atom "remote" :: rem)] => do
     let base ← world? (.list [.atom "world", .list (.atom "resp" :: rs), .list (.atom "content" :: cs),
            .list (.atom "wasm" :: ws), .list (.atom "node" :: ns), mr, .list (.atom "lock" :: ls)])
